@@ -34,45 +34,71 @@ Variable vp : list (vertex P).
 Variable tr : @tracecfg json.
 
 Hypothesis ev_ok : forall p m, wf m ->
-  fst (ev p m tr) = fst (sev p (abs m)) /\
-  map abs_ev (snd (ev p m tr)) = proj (tracing tr) (snd (sev p (abs m))).
+  (fst (ev p m tr) = fst (sev p (abs m)) /\
+   map abs_ev (snd (ev p m tr)) = proj (tracing tr) (snd (sev p (abs m)))) \/
+  (exists e, fst (ev p m tr) = Exn e /\ budget_exn e = true).
 Hypothesis ev_quiet : forall p m, ev_results (snd (ev p m tr)) = [].
 Hypothesis Hsrc : src_wf src.
 
 Definition answer : rs := sem P sev 0 vp (pmc tr) (abs (root_match src)).
 
+(* the iterator delivered the complete answer *)
+Definition complete (d : list (@outcome json * list jevent)) : Prop :=
+  exists ms,
+    map abs ms = sresults (fst answer) /\
+    outcomes d = map (fun m => OResult m) ms ++
+                 [ORaise (match snd answer with None => EStop | Some e => e end)] /\
+    map abs_ev (all_events d) = proj (tracing tr) (fst answer) /\
+    Forall lazy_item d.
+
+(* the iterator delivered a prefix of the answer and then a budget exception raised inside a filter *)
+Definition sound_prefix (d : list (@outcome json * list jevent)) : Prop :=
+  exists ms e pre suf,
+    fst answer = pre ++ suf /\ map abs ms = sresults pre /\
+    outcomes d = map (fun m => OResult m) ms ++ [ORaise e] /\ budget_exn e = true /\
+    Forall lazy_item d.
+
 (* The whole life of the iterator.  k is the number of actions of the run (it exists for every finite
-   document); every budget beyond it yields the complete answer. *)
+   document); every budget beyond it yields the complete answer, unless a search nested in a filter
+   exhausts its own budget, in which case a correct prefix is followed by that exception. *)
 Theorem iterator_spec :
   exists k : nat, forall B fuel, k < Pos.to_nat B -> List.length (sresults (fst answer)) < fuel ->
     let d := drain P ev src vp tr fuel B init_state in
-    exists ms,
-      map abs ms = sresults (fst answer) /\
-      outcomes d = map (fun m => OResult m) ms ++
-                   [ORaise (match snd answer with None => EStop | Some e => e end)] /\
-      map abs_ev (all_events d) = proj (tracing tr) (fst answer) /\
-      Forall lazy_item d.
+    complete d \/ sound_prefix d.
 Proof.
   pose proof (refinement P ev sev src vp tr ev_ok Hsrc) as Href.
-  unfold realizes in Href. fold answer in Href.
-  destruct (snd answer) as [e|] eqn:Hex.
-  - destruct Href as (k & z1 & evs & z2 & ev2 & Hrun & Hs & Hev).
-    exists k. intros B fuel HB Hfuel d.
-    assert (Hr2 : ev_results ev2 = []) by (eapply step_raise_quiet; eauto).
-    exists (ev_results evs).
-    assert (Hres : map abs (ev_results evs) = sresults (fst answer)).
-    { rewrite <- (sresults_proj (tracing tr)), <- Hev, sresults_abs, ev_results_app, Hr2, app_nil_r. reflexivity. }
-    assert (Hlen : List.length (ev_results evs) < fuel) by (rewrite <- (map_length abs), Hres; exact Hfuel).
-    destruct (drain_run P ev src vp tr ev_quiet B k init_state evs z1 e z2 ev2 fuel Hrun Hs HB Hlen) as (Ho & He & Hl).
-    split; [exact Hres|]. split; [exact Ho|]. split; [unfold d; rewrite He; exact Hev | exact Hl].
-  - destruct Href as (k & z' & evs & Hrun & Hev & Hpc & Hstop).
-    exists k. intros B fuel HB Hfuel d.
-    exists (ev_results evs).
-    assert (Hres : map abs (ev_results evs) = sresults (fst answer)).
+  fold answer in Href. destruct Href as [Href | Href].
+  - unfold ok_run in Href.
+    destruct (snd answer) as [e|] eqn:Hex.
+    + destruct Href as (k & z1 & evs & z2 & ev2 & Hrun & Hs & Hev).
+      exists k. intros B fuel HB Hfuel d. left. unfold complete. rewrite Hex.
+      assert (Hr2 : ev_results ev2 = []) by (eapply step_raise_quiet; eauto).
+      exists (ev_results evs).
+      assert (Hres : map abs (ev_results evs) = sresults (fst answer)).
+      { rewrite <- (sresults_proj (tracing tr)), <- Hev, sresults_abs, ev_results_app, Hr2, app_nil_r. reflexivity. }
+      assert (Hlen : List.length (ev_results evs) < fuel) by (rewrite <- (map_length abs), Hres; exact Hfuel).
+      destruct (drain_run P ev src vp tr ev_quiet B k init_state evs z1 e z2 ev2 fuel Hrun Hs HB Hlen) as (Ho & He & Hl).
+      split; [exact Hres|]. split; [exact Ho|]. split; [unfold d; rewrite He; exact Hev | exact Hl].
+    + destruct Href as (k & z' & evs & Hrun & Hev & Hpc & Hstop).
+      exists k. intros B fuel HB Hfuel d. left. unfold complete. rewrite Hex.
+      exists (ev_results evs).
+      assert (Hres : map abs (ev_results evs) = sresults (fst answer)).
+      { rewrite <- (sresults_proj (tracing tr)), <- Hev, sresults_abs. reflexivity. }
+      assert (Hlen : List.length (ev_results evs) < fuel) by (rewrite <- (map_length abs), Hres; exact Hfuel).
+      destruct (drain_run P ev src vp tr ev_quiet B k init_state evs z' EStop z' [] fuel Hrun Hstop HB Hlen) as (Ho & He & Hl).
+      split; [exact Hres|]. split; [exact Ho|]. split; [unfold d; rewrite He, app_nil_r; exact Hev | exact Hl].
+  - destruct Href as (k & z1 & evs & z2 & e & ev2 & pre & suf & Hrun & Hs & Hbe & Hfst & Hev).
+    exists k. intros B fuel HB Hfuel d. right.
+    exists (ev_results evs), e, pre, suf.
+    assert (Hres : map abs (ev_results evs) = sresults pre).
     { rewrite <- (sresults_proj (tracing tr)), <- Hev, sresults_abs. reflexivity. }
-    assert (Hlen : List.length (ev_results evs) < fuel) by (rewrite <- (map_length abs), Hres; exact Hfuel).
-    destruct (drain_run P ev src vp tr ev_quiet B k init_state evs z' EStop z' [] fuel Hrun Hstop HB Hlen) as (Ho & He & Hl).
-    split; [exact Hres|]. split; [exact Ho|]. split; [unfold d; rewrite He, app_nil_r; exact Hev | exact Hl].
+    assert (Hlen : List.length (ev_results evs) < fuel).
+    { assert (E1 : List.length (ev_results evs) = List.length (sresults pre)) by (rewrite <- Hres, map_length; reflexivity).
+      assert (E2 : List.length (sresults (fst answer)) = List.length (sresults pre) + List.length (sresults suf))
+        by (rewrite Hfst, sresults_app, app_length; reflexivity).
+      rewrite E1. rewrite E2 in Hfuel. clear -Hfuel. lia. }
+    destruct (drain_run P ev src vp tr ev_quiet B k init_state evs z1 e z2 ev2 fuel Hrun Hs HB Hlen) as (Ho & He & Hl).
+    split; [exact Hfst|]. split; [exact Hres|]. split; [exact Ho|]. split; [exact Hbe | exact Hl].
 Qed.
 
 End Query.
